@@ -764,7 +764,49 @@ def selftest():
     assert promote(DT('float16', 'float', 16), DT('bfloat', 'bfloat', 16)).spec == 'float16'
 
 
+# every numeric dtype family incl. all the small float formats: (spec, is_float, is_signed_int, width)
+PROMO_DTYPES = ([(f'uint{w}', False, False, w) for w in (1, 4, 8, 9, 16, 64)] + [(f'int{w}', False, True, w) for w in (2, 4, 8, 9, 16, 64)] + [('uintle16', False, False, 16), ('intbe24', False, True, 24),
+                ('bool', False, False, 1)] + [(f'float{w}', True, False, w) for w in (16, 32, 64)] + [('floatle32', True, False, 32), ('bfloat', True, False, 16), ('bfloatle', True, False, 16),
+                ('e8m0mxfp', True, False, 8), ('mxint', True, False, 8), ('e2m1mxfp', True, False, 4), ('e2m3mxfp', True, False, 6), ('e3m2mxfp', True, False, 6), ('e4m3mxfp', True, False, 8),
+                ('e5m2mxfp', True, False, 8), ('p3binary', True, False, 8), ('p4binary', True, False, 8)])
+
+
+def enum_promotion(tier):
+    for i in range(len(PROMO_DTYPES)):
+        for j in range(len(PROMO_DTYPES)):
+            yield {'i': i, 'j': j}
+
+
+def run_promotion(case):
+    """complete dtype x dtype table: [1] * [1] (representable everywhere) has the dtype the documented rules pick, and the value 1"""
+    bs = bitstring_module()
+    (s1, f1, g1, w1), (s2, f2, g2, w2) = PROMO_DTYPES[case['i']], PROMO_DTYPES[case['j']]
+    a, b = bs.Array(s1, [1]), bs.Array(s2, [1])
+    d1, d2 = a.dtype, b.dtype
+    if f1 != f2:
+        want = d1 if f1 else d2           # rule 1: floats win against integers
+    elif not f1 and g1 != g2:
+        want = d1 if g1 else d2           # rule 2: signed integers win against unsigned integers
+    else:
+        want = d2 if w2 > w1 else d1      # rule 3: the longer wins; rule 4: in a tie the first
+    for opname in ('mul', 'add', 'sub'):
+        r = attempt(getattr(operator, opname), a, b)
+        if opname != 'mul' and is_raised(r, ValueError):
+            continue        # 1 + 1 or 1 - 1 may not fit the promoted dtype (uint1, e8m0mxfp ...): raising is the documented outcome
+        require(not is_raised(r), f'[1] {opname} [1] raised', got=r, d1=s1, d2=s2)
+        require(r.dtype.name == want.name and r.dtype.bitlength == want.bitlength, 'result dtype is not the one the documented promotion rules pick', op=opname, d1=s1, d2=s2,
+                got=str(r.dtype), expected=str(want))
+        if opname == 'mul':
+            require(float(r[0]) == 1.0, '[1] * [1] is not 1 in the promoted dtype', got=r[0], d1=s1, d2=s2)
+    cmp = a <= b
+    require(cmp.dtype.name == 'bool' and cmp.tolist() == [True], 'a comparison must give a bool Array', got=str(cmp.dtype))
+    require(a.data.bin == bs.Array(s1, [1]).data.bin and b.data.bin == bs.Array(s2, [1]).data.bin, 'an operator modified an operand')
+    return {'nt': case['i'] != case['j'], 'labels': []}
+
+
 SUBCHECKS = [
+    Sub('C14.promotion_table', run_promotion, enum=enum_promotion,
+        enum_exhaustive_note='every ordered pair of 30 numeric dtypes (uint/int of 6 widths, endian forms, bool, float16/32/64, bfloat, e8m0mxfp, mxint and the seven 8/6/4-bit formats): result dtype of * + - and of a comparison'),
     Sub('C14.list_ops', run, strategy=case_st(LIST_OPS, trailing_prob=1000), examples={'quick': 8000, 'thorough': 120000}, ambient=('bytealigned',)),
     Sub('C14.trailing_bits_frame', run, strategy=case_st(['getitem', 'setitem', 'delitem', 'insert', 'pop', 'setslice', 'delslice', 'append', 'extend', 'reverse', 'data_edit', 'getslice'], trailing_prob=0),
         examples={'quick': 6000, 'thorough': 80000}, ambient=('bytealigned',)),
